@@ -23,6 +23,8 @@ func main() {
 	}
 	switch os.Args[1] {
 	case "extract":
+		// Nv.Tie.C09 also imports Nv.Gen.C08: regenerate it too (never read a stale file of another run)
+		c08x.ExtractC08Quiet(os.Args[2], os.Args[3])
 		c08x.ExtractC09(os.Args[2], os.Args[3])
 	case "corr":
 		corr.Main(spec(), os.Args[2:])
@@ -720,6 +722,15 @@ func (st *state) run(line string) string {
 		}
 		st.stress(f[1], int(nb), int(n))
 		return "ok"
+	case f[0] == "stress" && len(f) == 3 && (f[1] == "unm" || f[1] == "many"):
+		// monitor-only: a payload of n bytes (far beyond 128) must be rejected without touching the bitmap; a list of n
+		// single-member blocks iterates to n values
+		n, ok := c08x.ParseInt(f[2], 0, 200000)
+		if !ok || strings.HasPrefix(f[2], "-") {
+			return "bad-op"
+		}
+		st.stressLong(f[1], int(n))
+		return "ok"
 	case (f[0] == "bigs.getn" || f[0] == "tips.getn") && len(f) == 3:
 		rev, ok1 := c08x.ParseDir(f[1])
 		n, ok2 := c08x.ParseInt(f[2], -1<<62, maxSlice)
@@ -888,6 +899,49 @@ func (st *state) stress(kind string, nb, n int) {
 		if !ok || !eqI64(toI64(got), want) {
 			st.hit("U32BitTips.GetNAsU32", "concat", fmt.Sprintf("%d full blocks, rev=%v, n=%d: %d values returned (panic=%v), expected %d; first difference at %d", nb, rev, n, len(got), !ok, len(want), firstDiff(toI64(got), want)))
 		}
+	}
+}
+
+func (st *state) stressLong(kind string, n int) {
+	if kind == "unm" {
+		buf := make([]byte, n)
+		for i := 0; i+1 < n; i += 2 {
+			buf[i] = byte(7 + i/2%200) // elements 7, 8, … all in range
+		}
+		fresh := bitmap1024.NewBit1024()
+		err, p := safeUnmarshal(fresh, buf)
+		_, valid := denoted(buf)
+		switch {
+		case p:
+			st.hit("Bit1024.Unmarshal", "panic", fmt.Sprintf("Unmarshal panicked on %d bytes", n))
+		case !valid && err == nil:
+			st.hit("Bit1024.Unmarshal", "accepts-invalid", fmt.Sprintf("a payload of %d bytes (more than 128 / odd) was accepted; members afterwards %v", n, c08x.Members1024(fresh)))
+		case !valid && len(c08x.Members1024(fresh)) != 0 && (n > 128 || n%2 == 1):
+			st.hit("Bit1024.Unmarshal", "wrong-set", fmt.Sprintf("a rejected payload of %d bytes left members %v behind", n, c08x.Members1024(fresh)))
+		}
+		return
+	}
+	var bs bitmap1024.BigU32s
+	var ts bitmap1024.U32BitTips
+	var want []int64
+	for k := 0; k < n; k++ {
+		v := int64(k)*1024 + int64(k%1024)
+		b, err := bitmap1024.NewBigU32FromI64(v)
+		if err != nil {
+			st.hit("NewBigU32FromI64", "range", fmt.Sprintf("v=%d rejected", v))
+			return
+		}
+		bs = append(bs, b)
+		ts = append(ts, bitmap1024.NewU32BitTipFromU32(uint32(v)))
+		want = append(want, v)
+	}
+	got, ok := c08x.GetNCall(n+10, bs.GetNAsI64)
+	if !ok || !eqI64(got, want) {
+		st.hit("BigU32s.getNAsI64", "concat", fmt.Sprintf("%d single-member blocks, n=%d: %d values returned (panic=%v), first difference at %d", n, n+10, len(got), !ok, firstDiff(got, want)))
+	}
+	gotU, okU := c08x.GetNCall(n+10, ts.GetNAsU32)
+	if !okU || !eqI64(toI64(gotU), want) {
+		st.hit("U32BitTips.GetNAsU32", "concat", fmt.Sprintf("%d single-member blocks, n=%d: %d values returned (panic=%v), first difference at %d", n, n+10, len(gotU), !okU, firstDiff(toI64(gotU), want)))
 	}
 }
 
@@ -1494,7 +1548,8 @@ func fixedCases() []corr.Case {
 	}
 	// many full blocks and counts far beyond the usual ones (monitor-only op), single blocks with large n
 	cs = append(cs, corr.Case{Tag: "fixed:stress", Lines: []string{"new", "stress tip 70 100000", "stress big 70 100000", "stress tip 3 65537", "stress big 64 65536",
-		"stress tip 100 200000", "stress big 2 -1", "big.fromi64 5", "big.getn 0 f 100000", "big.getn 0 r 65537", "tip.fromu32 5", "tip.getn 0 f 100000", "tip.getn 0 r 4097",
+		"stress tip 100 200000", "stress big 2 -1", "stress unm 129", "stress unm 256", "stress unm 257", "stress unm 65538", "stress unm 65664", "stress unm 131074",
+		"stress many 300", "stress many 65546", "big.fromi64 5", "big.getn 0 f 100000", "big.getn 0 r 65537", "tip.fromu32 5", "tip.getn 0 f 100000", "tip.getn 0 r 4097",
 		"bigs.getn f 100000", "tips.getn r 70000"}})
 	// a block grows one member at a time until it is full (Len through every value 1…1024), through SetI64 / SetU32 / sparse
 	// Unmarshal into the non-empty bitmap; membership is checked after every step. Orders: word 0 last, word 0 first, scattered
